@@ -49,6 +49,19 @@ PROPS = {
              "pairwise-complete window (centred two-pass), bound per DESIGN 5.1; undefined statistics are unconstrained and counted. "
              "distinct = (function, type combo, len bucket, window, min_periods, path, relation/value class/null patterns)",
     ),
+    "C05": dict(
+        bin="c05", features=["polars"],
+        quick=NATIVE_Q, thorough=NATIVE_T,
+        floors={"empty_input_cases": 10, "null.ts_vkurt": 100, "value.ts_vkurt": 100, "null.ts_vcov": 100, "value.ts_vregx_all.2": 50,
+                "backend.polars<f64>": 20, "backend.deque<f64>": 20, "backend.arrayview1<f64>": 20, "backend.arc<array1<f64>>": 20,
+                "backend.optiter(vec<f64>)": 20, "deque_wrapped": 10},
+        rule="all rolling entry points (8 plain, 8 null-aware moments, 10 extrema/rank/norm, 5 trend, 10 two-series) x 16 input backends "
+             "(Vec, [T;N], VecDeque wrapped/contiguous, Array1, strided/reversed ArrayView1, ArrayViewMut1, Arc<Vec>, Arc<Array1>, OptIter, "
+             "Option / integer element types, SpyVec, SpyVecFast, polars with 1-3 chunks) x len 0..N x window 1..len+3 x min_periods "
+             "{None,0..w} x 10 null patterns; output length and null mask judged exactly against the count rule (values not judged "
+             "here); omitted min_periods with len<w skipped for the extrema/rank family (DESIGN 5.3). distinct = (function, backend, "
+             "len bucket, window, min_periods, path, class) with >=1 non-null output",
+    ),
 }
 
 for _k in list(PROPS):
